@@ -130,10 +130,17 @@ func (m *MonC13) queryAnswerApplied(w *World, step int, op Op) {
 		return
 	}
 	queueing := map[string]bool{} // cid|rid
+	// settled: the gateway still has a sent subscription with an empty queue for
+	// the rid. A copy the event itself made unreachable (it replaced the last
+	// reference to a cycle the rid was part of) is dropped on both sides without
+	// an event of its own and is not looked at
+	settled := map[string]bool{}
 	for _, vc := range w.ConnSnapshot() {
 		for _, s := range vc.Subs {
 			if s.QueueFlag != 0 || s.State != 5 {
 				queueing[vc.CID+"|"+s.RID] = true
+			} else {
+				settled[vc.CID+"|"+s.RID] = true
 			}
 		}
 	}
@@ -156,6 +163,10 @@ func (m *MonC13) queryAnswerApplied(w *World, step int, op Op) {
 				full += "?" + q
 			}
 			if r.Type == 'e' || r.Deleted || queueing[c.CID+"|"+full] {
+				continue
+			}
+			if !settled[c.CID+"|"+full] {
+				m.class("query_answer_for_dropped_subscription_skipped")
 				continue
 			}
 			// only a client that was in step with the service before the answer: a
